@@ -116,7 +116,6 @@ structure MurmurSyn where
   getBlockBytes : Nat                  -- get_block: memcpy(&tmp, p + i, getBlockBytes)
   rotlBody : UExpr                     -- rotl64(x, r) over `arg 0`, `arg 1`
   fmixBody : List UStm                 -- fmix(k) over register `k`, returns `k`
-  defaultSeed : Nat                    -- default argument of `seed`
 deriving DecidableEq, Repr
 
 def MurmurSyn.rotlF (s : MurmurSyn) (x r : UInt64) : UInt64 :=
@@ -135,7 +134,7 @@ def MurmurSyn.loop (s : MurmurSyn) (c : Ctx) : Nat → Nat → Env → Env
   | n + 1, i, e => s.loop c n (i + 1) (execStms { c with i := i } s.loopBody e)
 
 /-- `murmurhash3::hash128(data, len, seed)` as written -/
-def MurmurSyn.run (s : MurmurSyn) (bytes : List UInt8) (seed : UInt64 := s.defaultSeed.toUInt64) : Hash :=
+def MurmurSyn.run (s : MurmurSyn) (bytes : List UInt8) (seed : UInt64) : Hash :=
   let c := s.ctx bytes seed
   let e := execStms c s.init {}
   let e := s.loop c (bytes.length / s.blockLen) 0 e
